@@ -15,6 +15,7 @@ Kernel equality of the real operators (floats, SIMD, every other in-place operat
 differential execution in harness/rten/src/bin/c13.rs — level "proof + partial".
 -/
 import RtenVerif.Lemmas.InPlace
+import RtenVerif.Model.InPlaceExec
 import RtenVerif.Lemmas.LayoutSeq
 import RtenVerif.Generated.InPlaceOps
 
@@ -145,6 +146,64 @@ example : inPlaceCandidates [0] true [some 4, some 12] = [1] ∧
     inPlaceCandidates [0] true [some 6, some 6] = [1] ∧
     inPlaceCandidates [0] false [some 4, some 12] = [0] ∧
     inPlaceCandidates [] true [some 4, some 12] = [] := by decide
+
+/-! ## Executor level (src/graph.rs) -/
+
+/-- **E1.** Operands of an operator that is *not* flagged commutative are never re-ordered: the
+in-place candidates are among the operator's own `in_place_inputs`. -/
+theorem c13_noncommutative_never_swapped (ips : List Nat) (lens : List (Option Nat)) :
+    ∀ i ∈ inPlaceCandidates ips false lens, i ∈ ips := by
+  intro i hi
+  unfold inPlaceCandidates at hi
+  split at hi
+  · cases hi
+  · simp only [Bool.false_eq_true, if_false] at hi
+    exact (List.mem_filter.mp hi).1
+
+theorem execChoice_mem {ips : List Nat} {comm : Bool} {lens : List (Option Nat)}
+    {inTemp takeable : List Bool} {p : Nat} (h : execChoice ips comm lens inTemp takeable = some p) :
+    p ∈ inPlaceCandidates ips comm
+      ((List.zip lens inTemp).map (fun q => q.1.map (fun n => if q.2 then n else 0))) := by
+  unfold execChoice at h
+  simp only at h
+  split at h
+  · exact List.mem_of_head? h
+  · cases h
+
+/-- **E2.** Whatever the executor decides for a binary operator node — run in place on operand 0,
+swap and run in place on operand 1 (only possible for operators flagged commutative), or run
+normally — the node's result is the out-of-place result.  Hypotheses: the operator's in-place
+input is operand 0 (true of every binary operator in src/ops), and *if* it is flagged
+commutative its element function is commutative (T2c). -/
+theorem c13_graph_exec_eq_run {α : Type} (f : α → α → α) (ips : List Nat) (comm : Bool)
+    (hips : ∀ i ∈ ips, i = 0) (hcomm : comm = true → ∀ x y, f x y = f y x)
+    (a b : Tens α) (ownA ownB shared : Bool) (ha : a.WF) (hb : b.WF) :
+    graphExec f ips comm a b ownA ownB shared = binop f a b := by
+  unfold graphExec
+  split
+  · exact c13_run_in_place_eq_run f a b ha hb
+  · rename_i p hne hp
+    have hmem := execChoice_mem hp
+    have hc : comm = true := by
+      cases comm with
+      | true => rfl
+      | false =>
+        exfalso
+        have := hips p (c13_noncommutative_never_swapped ips _ p hmem)
+        exact hne this
+    rw [c13_run_in_place_eq_run f b a hb ha, c13_binop_swap f b a]
+    have : (fun y x => f x y) = f := by funext y x; exact hcomm hc x y
+    rw [this]
+  · rfl
+
+/-- The swap really happens (non-vacuity of the second branch): `Add`-like node, larger owned
+second operand → in place on operand 1; a borrowed larger operand counts as length 0. -/
+example : execChoice [0] true [some 2, some 6] [true, true] [true, true] = some 1 ∧
+    execChoice [0] true [some 6, some 6] [true, false] [true, false] = some 0 ∧
+    execChoice [0] true [some 6, some 6] [true, true] [false, false] = none ∧
+    execChoice [0] false [some 2, some 6] [true, true] [true, true] = some 0 ∧
+    graphExec (· + ·) [0] true (⟨[2], [1, 2]⟩ : Tens Nat) ⟨[3, 2], [10, 20, 30, 40, 50, 60]⟩ true true false
+      = some ⟨[3, 2], [11, 22, 31, 42, 51, 62]⟩ := by decide
 
 end RtenVerif.InPlace
 
